@@ -34,6 +34,52 @@ def parser_expr(f):
     return None
 
 
+CLASS = {"i8": "int", "i16": "int", "i32": "int", "i64": "int", "i128": "int", "u8": "digit", "u16": "digit",
+         "u32": "digit", "u64": "digit", "digit1": "digit", "alpha1": "alpha", "alphanumeric1": "alnum"}
+CLASS_RE = {"int": r"[+-]?[0-9]+", "digit": r"[0-9]+", "alpha": r"[A-Za-z]+", "alnum": r"[A-Za-z0-9]+"}
+
+
+class Indefinite(Exception):
+    pass
+
+
+def peg(g, s, i=0):
+    """end position (or None) of nom's deterministic, ordered-choice reading of concrete text"""
+    k = g[0]
+    if k == "lit":
+        if g[1] == "?":
+            raise Indefinite("unknown tag")
+        return i + len(g[1]) if s.startswith(g[1], i) else None
+    if k == "num":
+        rx = CLASS_RE.get(g[1] if len(g) > 1 else "other")
+        if rx is None:
+            raise Indefinite("character class")
+        m = re.compile(rx).match(s, i)
+        return m.end() if m else None
+    if k == "seq":
+        for x in g[1]:
+            i = peg(x, s, i)
+            if i is None:
+                return None
+        return i
+    if k == "alt":
+        for x in g[1]:
+            j = peg(x, s, i)
+            if j is not None:
+                return j
+        return None
+    if k == "opt":
+        j = peg(g[1], s, i)
+        return i if j is None else j
+    if k == "many0":
+        while True:
+            j = peg(g[1], s, i)
+            if j is None or j == i:
+                return i
+            i = j
+    raise Indefinite(k)
+
+
 def grammar(p, e, depth=0):
     if depth > 30:
         return ("any",)
@@ -42,7 +88,7 @@ def grammar(p, e, depth=0):
         name = e.c or ""
         short = name.rsplit("::", 1)[-1]
         if name.startswith("nom::character::complete::") or short in ("i32", "i64", "u32", "u64", "digit1"):
-            return ("num",)
+            return ("num", CLASS.get(short, "other"))
         g = p.fns.get(name)
         if g is None:
             for d, h in p.fns.items():
@@ -92,9 +138,9 @@ def grammar(p, e, depth=0):
         if n == "value":
             return grammar(p, args[1], depth + 1)
         if n in ("i32", "i64", "u32", "u64", "digit1", "alpha1", "alphanumeric1") or "character::complete" in d:
-            return ("num",)
+            return ("num", CLASS.get(n, "other"))
         if n in ("take_while", "take_while1", "is_a", "is_not", "take_till", "take_till1"):
-            return ("num",)
+            return ("num", "other")
         # a local parser function called directly
         for g in p.callees(e.a):
             pe = parser_expr(g)
@@ -576,7 +622,67 @@ def k6(led, rid, ctx):
               "identifiers starting with `_` (introduced variables, internal labels) are not accepted by the reader")
 
 
+def k7(led, rid, ctx):
+    """ORDERED CHOICE: the reader of an atomic constraint is nom's `alt`, which takes the first
+    alternative that succeeds.  Every concrete text the writer produces for one kind of atomic
+    (Display of BoolAtomicConstraint / IntAtomicConstraint, instantiated with sample names and
+    values) must be taken by the alternative that builds that kind."""
+    p = ctx.drcp
+    n = 0
+    for fname in ("literal_definitions::atomic", "reader::atomic", "reader::atomic_constraint"):
+        try:
+            f = p.fn(fname)
+        except Exception:
+            continue
+        e = parser_expr(f)
+        while e is not None and e.k == "call" and e.a.name in ("cut", "complete", "context") and e.b:
+            e = peel(e.b[-1], calls=None)
+        if e is None or e.k != "call" or e.a.name != "alt":
+            continue
+        inner = peel(e.b[0], calls=None)
+        branches = []
+        for br in (inner.a if inner.k == "tuple" else [inner]):
+            br = peel(br, calls=None)
+            kind = None
+            if br.k == "call" and br.a.name == "map" and len(br.b) == 2:
+                ctor = peel(br.b[1], calls=None)
+                nm = (ctor.c or "") if ctor.k == "const" else show(ctor)
+                for v in ("Int", "Bool"):
+                    if nm.endswith("::" + v) or ("AtomicConstraint::%s" % v) in nm:
+                        kind = v
+            branches.append((kind, grammar(p, br)))
+        if not any(k for k, _ in branches):
+            continue
+        for kind, ty in (("Int", "atomic::IntAtomicConstraint"), ("Bool", "atomic::BoolAtomicConstraint")):
+            for sk in sorted(display_skeletons(p, ty)):
+                if sk.count("#") < 1:
+                    continue
+                bad = None
+                tried = 0
+                for name in ("x", "_b1", "v0"):
+                    for val in ("0", "1", "-1", "12"):
+                        text = sk.replace("#", name, 1).replace("#", val)
+                        try:
+                            for bk, bg in branches:
+                                if peg(bg, text, 0) is not None:
+                                    tried += 1
+                                    if bk != kind and bad is None:
+                                        bad = (text, bk)
+                                    break
+                        except Indefinite:
+                            pass
+                n += 1
+                led.check(bad is None, rid, "%s:%s:%s" % (fname.split("::")[0], kind, sk), f.span,
+                          "%d sample texts taken by the %s alternative" % (tried, kind),
+                          "the text %r, which the writer produces for an %s atomic constraint, is taken by the "
+                          "%s alternative of `%s` (alt is an ordered choice): the constraint is read back as a "
+                          "different kind, so a proof that mentions it is about another literal"
+                          % (bad[0] if bad else "", kind, bad[1] if bad else "", fname))
+    led.floor(rid, "atomic skeletons per ordered choice", n, 5)
+
+
 def run(ctx, led):
+    run_rule(led, "K7", "ORDERED CHOICE: each kind of atomic text is read by the alternative that builds that kind", k7, ctx)
     run_rule(led, "K1", "TOKENS: the literal tokens of writer and reader agree", k1, ctx)
     run_rule(led, "K2", "per step kind, every output skeleton of the writer (optional parts 0/1, lists "
              "0–2 elements) is in the language of the reader's grammar, after the trim the reader "
